@@ -1,6 +1,8 @@
 package kvgraph
 
 import (
+	"sync"
+
 	"github.com/bmeg/grip/gdbi"
 	"github.com/bmeg/grip/kvi"
 	"github.com/bmeg/grip/kvindex"
@@ -12,6 +14,9 @@ type KVGraph struct {
 	kv  kvi.KVInterface
 	idx *kvindex.KVIndex
 	ts  *timestamp.Timestamp
+	//writeLock serialises element writes: replacing or deleting an element reads
+	//its stored record before it writes, and the stores' batches do not detect conflicts
+	writeLock sync.Mutex
 }
 
 // KVInterfaceGDB implements the GDB interface using a genertic key/value storage driver
